@@ -805,3 +805,19 @@ V('c01-cstr-writer-order', 'C01', 'C01.PRIMS', OUTF,
   "        if length > 256:\n            raise NamePartTooLongException\n        self._write_byte(length)\n        self.write_string(value)", "        if length > 256:\n            raise NamePartTooLongException\n        self.write_string(value)\n        self._write_byte(length)")
 V('c01-twin-prims-locals', 'C01', 'C01.PRIMS', INCF,
   "        info = self.data[self.offset : self.offset + length]\n        self.offset += length\n        return info", "        start = self.offset\n        self.offset = start + length\n        return self.data[start : start + length]", expect='silent')
+
+V('c15-timer-del-unguarded', 'C15', 'C15.CONTAINERS', LSF,
+  "        if addr in self._timers:\n            self._timers.pop(addr).cancel()", "        self._timers.pop(addr).cancel()", names=['_timers'])
+V('c15-deferred-subscript', 'C15', 'C15.CONTAINERS', LSF,
+  "        packets = self._deferred.pop(addr, [])", "        packets = self._deferred.pop(addr)", names=['_deferred'])
+V('c15-queue-head-unguarded', 'C15', 'C15.CONTAINERS', MQF,
+  "        if len(self.queue):\n            # If there are still groups in the queue that are not ready to send\n            # be sure we schedule them to go out later\n            loop.call_at",
+  "        if answers:\n            # If there are still groups in the queue that are not ready to send\n            # be sure we schedule them to go out later\n            loop.call_at", names=['queue'])
+V('c15-history-del-direct', 'C15', 'C15.CONTAINERS', QHF,
+  "                self.question_history.add_question_at_time(question, now, known_answers_set)", "                self.question_history.add_question_at_time(question, now, known_answers_set)\n                del self.question_history._history[question]", expect='silent')
+V('c15-bucket-before-additionals', 'C15', 'C15.CONTAINERS', QHF,
+  "        self._additionals.update(answers)\n        self._ucast.update(answers)", "        self._ucast.update(answers)", names=['_ucast'])
+V('c15-twin-timer-get', 'C15', 'C15.CONTAINERS', LSF,
+  "        if addr in self._timers:\n            self._timers.pop(addr).cancel()", "        timer = self._timers.pop(addr, None)\n        if timer is not None:\n            timer.cancel()", expect='silent')
+V('c15-twin-queue-truthy', 'C15', 'C15.CONTAINERS', MQF,
+  "        if len(self.queue):\n            # If there are still groups in the queue that are not ready to send", "        if self.queue:\n            # If there are still groups in the queue that are not ready to send", expect='silent')
